@@ -50,6 +50,7 @@ func enumScripts(c *sup.Ctx, length int) {
 		n++
 		c.Count("scripts", 1)
 		c.Count("steps", int64(length))
+		c.Count("closed_handle_calls_probed", int64(m.ClosedProbes))
 	}
 }
 
@@ -65,6 +66,7 @@ func randomScripts(c *sup.Ctx, r *rng.R) {
 		m.Cleanup()
 		c.Count("scripts", 1)
 		c.Count("steps", 30)
+		c.Count("closed_handle_calls_probed", int64(m.ClosedProbes))
 	}
 	c.Sample(map[string]any{"script": m.Steps})
 }
